@@ -19,14 +19,28 @@ fn main() {
         usage();
     }
     // silence the default panic message: panics are values here
-    std::panic::set_hook(Box::new(|_| {}));
+    // (the last one is kept, and printed if it ends the run)
+    static LAST_PANIC: std::sync::Mutex<String> = std::sync::Mutex::new(String::new());
+    std::panic::set_hook(Box::new(|info| {
+        if let Ok(mut l) = LAST_PANIC.lock() {
+            *l = info.to_string();
+        }
+    }));
     match args[1].as_str() {
         "gen" if args.len() == 6 => {
             let seed: u64 = args[4].parse().unwrap_or(1);
             let tier = props::Tier::parse(&args[3]).unwrap_or_else(|| usage());
-            if !props::run(&args[2], tier, seed, &args[5]) {
-                eprintln!("unknown property {}", args[2]);
-                std::process::exit(2);
+            let (prop, out) = (args[2].clone(), args[5].clone());
+            match std::panic::catch_unwind(move || props::run(&prop, tier, seed, &out)) {
+                Ok(true) => {}
+                Ok(false) => {
+                    eprintln!("unknown property {}", args[2]);
+                    std::process::exit(2);
+                }
+                Err(_) => {
+                    eprintln!("harness panic: {}", LAST_PANIC.lock().map(|l| l.clone()).unwrap_or_default());
+                    std::process::exit(101);
+                }
             }
         }
         "c18-child" if args.len() == 6 => props::c18::child(&args[2..]),
